@@ -42,7 +42,7 @@ def generate(seed, prop):
     fault_rate = rng.choice([0.0, 0.0, 0.2, 0.5])
     w = {"trim": 3.0, "filter": 1.5, "detrend": 1.5, "window": 1.5, "orient": 1.5, "split": 1.5,
          "copy": 2.0, "ts_copy": 1.0, "construct": 1.0, "ts_split": 1.2, "ts_from_array": 1.0, "edit_caller_array": 1.0,
-         "ts_method": 1.0, "edit_samples": 2.5, "edit_meta": 1.0,
+         "ts_method": 1.0, "edit_samples": 2.5, "edit_meta": 1.0, "set_dt": 0.6,
          "assign_samples": 0.7, "save": 3.0, "load": 3.0, "use": 0.8}
     for k in list(w):
         if rng.random() < 0.12 and k not in ("save", "load"):
@@ -130,6 +130,10 @@ def draw_op(rng, name, fault_rate):
         # they leave behind inside the objects - memoised vectors, say - must not influence later operations)
         return {"op": name, "i": i, "how": rng.choice(["time", "time", "str", "compare", "plot_records", "plot_records",
                                                       "sta_lta"])}
+    if name == "set_dt":
+        # the header carried a wrong sampling rate: the user corrects the time step of the three components in place
+        # (dt_in_seconds is a plain public attribute)
+        return {"op": name, "i": i, "factor": rng.choice([0.5, 2.0, 1.25, 0.1])}
     if name == "edit_meta":
         return {"op": name, "i": i, "key": rng.choice(["site", "note", "edited"]), "value": rng.choice(["x", 7, [1, 2]])}
     if name == "save":
@@ -497,6 +501,13 @@ def step(ctx, st, op, H):
         except Exception as ex:                              # noqa  (a use that fails is of no interest here)
             info = type(ex).__name__
         ctx.probe("read_only_use")
+    elif name == "set_dt" and rec is not None:
+        targets = [rec]
+        new_dt = rec.ns.dt_in_seconds * op["factor"]
+        for c_ in ("ns", "ew", "vt"):
+            getattr(rec, c_).dt_in_seconds = new_dt
+        ctx.probe("time_step_corrected_in_place")
+        ctx.state_changes += 1
     elif name == "edit_meta" and rec is not None:
         targets = [rec]
         rec.meta[op["key"]] = copy.deepcopy(op["value"])
@@ -561,6 +572,10 @@ def step(ctx, st, op, H):
                         ctx.check(False, "read_fault_swallowed", "eio_read during load was swallowed")
                 except OSError:
                     ctx.probe("read_failed")
+                except Exception as ex:                      # noqa  (not the injected error: the file itself is bad)
+                    ctx.check(False, "load_raised_after_completed_save",
+                              f"loading a file written by a save that completed normally raised {type(ex).__name__}: {ex}",
+                              key={"op": "load"})
                 finally:
                     st.fs.disarm()
             key = {"op": "load"}
